@@ -2209,6 +2209,12 @@ impl<'a> Socket<'a> {
         if self.remote_win_len != 0 && self.timer.is_zero_window_probe() {
             tcp_trace!("stopping zero-window-probe timer");
             self.timer.set_for_idle(cx.now(), self.keep_alive);
+            if self.remote_last_seq != self.local_seq_no {
+                // Segments sent before the window closed are still unacknowledged:
+                // they must be retransmitted if no acknowledgement arrives.
+                self.timer
+                    .set_for_retransmit(cx.now(), self.rtte.retransmission_timeout());
+            }
         }
 
         let payload_len = payload.len();
